@@ -66,11 +66,22 @@ pub fn generate_block(
                     };
 
                     let (count, stride, index_required) = match &m.kind {
-                        BlockMethodKind::Normal => (1i64, Literal::i64_unsuffixed(0), false),
-                        BlockMethodKind::Repeated { count, stride } => {
-                            (count.to_string().parse().unwrap(), stride.clone(), true)
-                        }
+                        BlockMethodKind::Normal => (1i64, 0i64, false),
+                        BlockMethodKind::Repeated { count, stride } => (
+                            count.to_string().parse().unwrap(),
+                            stride.to_string().parse().unwrap(),
+                            true,
+                        ),
                     };
+
+                    // The address type may be unsigned, so a negative stride is subtracted
+                    // instead of being written as a negative literal (same as in the accessor)
+                    let operator = if stride.is_negative() {
+                        quote! { - }
+                    } else {
+                        quote! { + }
+                    };
+                    let stride = Literal::u64_unsuffixed(stride.unsigned_abs());
 
                     Some((0..count).map(move |index| {
                     let (index_param, register_display_name) = match index_required {
@@ -85,7 +96,7 @@ pub fn generate_block(
                         #cfg_attr
                         let reg = self.#register_name(#index_param).#read_function?;
                         #cfg_attr
-                        callback(#address + #index * #stride, #register_display_name, reg.into());
+                        callback(#address #operator #index * #stride, #register_display_name, reg.into());
                     }
                 }))
                 }
